@@ -379,6 +379,22 @@ func gen(cfg *hx.Config, maxLen int) ([]hx.T, []string) {
 	sh := shadow{}
 	var ops []hx.T
 	tags := map[string]bool{}
+	// connection ids are any uint32: in a third of the histories the two smallest ids of the pool stand for
+	// the boundary values 0 and 2^32-1 (seed C16-11: Channel.Add dropping id 0)
+	boundary := r.Intn(3) == 0
+	idv := func(i int64) int64 {
+		if boundary {
+			switch i {
+			case 1:
+				tags["id-zero"] = true
+				return 0
+			case 2:
+				tags["id-max"] = true
+				return 4294967295
+			}
+		}
+		return i
+	}
 	for len(ops) < n {
 		c, f := 1+r.Int63n(nch), 1+r.Int63n(nfr)
 		if r.Intn(6) == 0 {
@@ -388,7 +404,7 @@ func gen(cfg *hx.Config, maxLen int) ([]hx.T, []string) {
 		k := [2]int64{c, f}
 		switch p := r.Intn(100); {
 		case p < 40:
-			i := 1 + r.Int63n(nid)
+			i := idv(1 + r.Int63n(nid))
 			for _, x := range sh[k] {
 				if x == i {
 					tags["dup-add"] = true
@@ -420,7 +436,7 @@ func gen(cfg *hx.Config, maxLen int) ([]hx.T, []string) {
 					}
 				}
 			} else {
-				i = 1 + r.Int63n(nid+1)
+				i = idv(1 + r.Int63n(nid+1))
 				tags["leave-absent"] = true
 			}
 			ops = append(ops, hx.C("OLeave", c, f, i))
@@ -441,7 +457,7 @@ func gen(cfg *hx.Config, maxLen int) ([]hx.T, []string) {
 		case p < 96:
 			ids := []int64{}
 			for j := r.Intn(4); j >= 0; j-- {
-				ids = append(ids, 1+r.Int63n(nid))
+				ids = append(ids, idv(1+r.Int63n(nid)))
 			}
 			tags["direct"] = true
 			ops = append(ops, hx.C("ODirect", f, ids))
